@@ -361,6 +361,34 @@ def readable_oracle(line, res):
     return None
 
 
+def matchconc_gen(rng, tier):
+    """concurrent Match calls on one matcher (regexp, domain and full entries; long names that differ only at their
+    end): every call must return what the same call returns alone (seed C11-M: the regexps ran on a buffer that was
+    already back in the pool)"""
+    out = []
+    lab = lambda k: bytes(rng.choice(b"abcdefghijklmnopqrstuvwxyz0123456789-") for _ in range(k))
+    for i in range(budget(tier, 4, 30)):
+        stem = [lab(rng.choice([20, 40, 60])) for _ in range(rng.choice([2, 3]))]
+        tails = [b"blocked", b"allowed", b"blockee", lab(7)]
+        rules = [b"regexp:^([a-z0-9-]+\\.)*blocked$", b"regexp:\\.blockee$", b"domain:" + b".".join(stem[-1:] + [b"example"]),
+                 b"full:" + b".".join(stem + [b"exact"]), b"regexp:^" + stem[1][:8] + b"[a-z0-9-]*\\."]
+        rng.shuffle(rules)
+        probes = [gens.raw_name(stem + [t]) for t in tails] + [gens.raw_name(stem[1:] + [t]) for t in tails[:2]] + \
+                 [gens.raw_name(stem + [b"exact"]), gens.raw_name([b"www"] + stem[-1:] + [b"example"]), gens.raw_name([b"blocked"])]
+        out.append("mc%d rules=%s probes=%s g=%d ms=%d" % (i, ",".join(gens.hx(r) for r in rules), ",".join(gens.hx(p) for p in probes),
+                                                        rng.choice([8, 16, 32]), budget(tier, 400, 1500)))
+    return out
+
+
+def matchconc_oracle(line, res):
+    f = gens.fields(res)
+    if not res.startswith("seq="):
+        return None
+    if f.get("bad", "0") != "0":
+        return "%s of %s concurrent Match calls returned another result than the same call alone" % (f["bad"], f.get("n"))
+    return None
+
+
 PROPS["C11"] = dict(
     kinds=[
         dict(name="matcher", gen=lambda rng, tier: overlong_cases(rng) + c11_matcher_gen(rng, tier), respec=matcher_respec,
@@ -369,6 +397,8 @@ PROPS["C11"] = dict(
              nontrivial=matcher_nontrivial, classify=matcher_classify, shards=16, timeout=1500),
         dict(name="readable", gen=c11_readable_gen, oracle=readable_oracle, shards=8,
              nontrivial=lambda l, r: r.startswith("OK"), timeout=600),
+        dict(name="matchconc", gen=matchconc_gen, oracle=matchconc_oracle, model=False, timeout=600,
+             nontrivial=lambda l, r: "1" in gens.fields(r).get("seq", ""), classify=lambda l, r: "g" + gens.fields(l).get("g", "?")),
     ],
     rule="matcher: per case a family of entries (base names, children, parents, duplicates, confusable siblings: "
          "trailing NUL, 24/25-octet labels, other case; the root; labels of 1..63 arbitrary octets) in a random order, "
@@ -378,7 +408,8 @@ PROPS["C11"] = dict(
          "names; result = acceptance flags + one match bit per probe, compared with the model and with the "
          "declarative set-of-entries reference extracted from the Coq spec. non-trivial = at least one probe matched. "
          "readable: ToReadable / ParseReadable / ToLowerName on every octet value and on generated and mutated "
-         "names/strings, compared with the model; ToReadable also against the escaping rule of the property text.",
+         "names/strings, compared with the model; ToReadable also against the escaping rule of the property text. "
+         "matchconc: concurrent Match calls on one matcher with regexp / domain / full entries vs. the same calls alone (oracle only).",
     assumptions=["regexp rules are drawn from the literal subset [^]QuoteMeta(lit)[$] (Go's regexp engine is an oracle "
                  "argument of the model)",
                  "bytes.TrimSpace is modelled for ASCII white space; loader-mode lines carry no octet >= 0x80 at their edges",
